@@ -9,13 +9,16 @@ from .. import storage
 from ..pathcond import rimplied
 
 MANIFEST = {
-    'technique': 'must-follow rule on every re-binding of a stream\'s indexer or of the indexer\'s data (phase views and equilibrium caches must be refreshed or dropped); branch-shape rule for the upper/lower-case phase fallback; field-provenance rule for save/restore; alignment rule for whole-array copies',
-    'text': 'Decides for every history: each assignment to a stream\'s _imol, and each re-binding of its data, outside constructors is followed on '
-            'every path by dropping or re-pointing the per-phase sub-streams and by rebuilding the equilibrium caches (or the object leaves the '
-            'multi-phase state); the case-insensitive phase fallback is taken only when the exact label is absent; get_data snapshots a copy of the '
-            'flows plus T, P and phases and set_data restores all four, phases first; phase views are built over the row object with a locked phase '
-            'and the shared thermal condition; whole-array copies between multi-phase indexers happen only between provably equal phase tuples. '
-            'Totals over arbitrary operation sequences are not decided.',
+    'technique': "must-follow rule on every re-binding of a stream's indexer or of the indexer's data (phase views and equilibrium caches must be refreshed or dropped); "
+            'branch-shape rule for the upper/lower-case phase fallback; field-provenance rule for save/restore; alignment rule for whole-array copies; '
+            'all-quantifier rule for phases_are_empty / reduce_phases; block-transfer alignment for copy_flow; snapshot reduction rule',
+    'text': "Decides for every history: each assignment to a stream's _imol, and each re-binding of its data, outside constructors is followed on every path by "
+            'dropping or re-pointing the per-phase sub-streams and by rebuilding the equilibrium caches (or the object leaves the multi-phase state); the '
+            'case-insensitive phase fallback is taken only when the exact label is absent; get_data snapshots a copy of the flows plus T, P and phases and set_data '
+            'restores all four, phases first; phase views are built over the row object with a locked phase and the shared thermal condition; whole-array copies '
+            'between multi-phase indexers happen only between provably equal phase tuples. phases_are_empty answers True only after an exhausted loop over the '
+            'requested labels; reduce_phases keeps every label whose own row is non-empty; MultiStream.copy_flow compares the two phase tuples before moving blocks '
+            'of rows; set_data reduces a one-phase snapshot of a multi-phase stream before restoring it. Totals over arbitrary operation sequences are not decided.',
 }
 
 ST = 'thermosteam/_stream.py'
